@@ -110,6 +110,7 @@ def run(tier, replay=None):
     c.extra["video_segments"] = st["segments"]
     c.extra["emsg_boxes"] = st["emsgs"]
     c.extra["audio_text_segments"] = st["other_rep_segments"]
+    c.extra["audio_text_segments_not_served_skipped"] = st.get("other_rep_not_served", 0)
     c.extra["rejected_requests"] = st["rejections"]
     c.extra["stream_hours"] = st["stream_hours"]
     c.extra["runs_straddling_a_pts_wrap"] = st["runs_with_pts_wrap"]
